@@ -19,8 +19,7 @@ TRUSTED = ["rustc nightly MIR construction (mir-opt-level=0)", "shred-facts driv
 RULE_TEXT = "one obligation per (run-family method, carrier field), per path of insert, per shape-changing call site on the lock-step tables, per wiring site"
 
 
-def batch_run(ctx, report, facts, config):
-    rule = "C04.FANOUT"
+def batch_run(ctx, report, facts, config, rule="C04.FANOUT"):
     prog = ctx.program(facts)
     # BatchControllerSystem::run passes &mut self.dispatcher and the fetched world to the controller
     b = F.timpl(facts, A.T_SYSTEM, A.BCS, "run")
